@@ -35,13 +35,29 @@ MODPATH = {
 }
 
 # anchored source patches applied to the scratch copy only (file, regex, replacement, what)
-PATCHES = {}
+PATCHES = {
+    "syntax": [
+        ("crates/syntax/src/parser.rs",
+         r"^pub\(crate\) type Parser<'a> = ParserBase<PreProcessor<Lexer<'a>>>;",
+         "#[cfg(not(kani))]\npub(crate) type Parser<'a> = ParserBase<PreProcessor<Lexer<'a>>>;\n"
+         "#[cfg(kani)]\npub(crate) type Parser<'a> = ParserBase<crate::verif_common::SymStream<'a>>;",
+         "Parser alias twin over the symbolic stream"),
+        ("crates/syntax/src/lib.rs", r"\A", "#![cfg_attr(kani, recursion_limit = \"1024\")]\n",
+         "recursion limit for stacked stub attributes"),
+        ("crates/syntax/src/lib.rs",
+         r"^pub fn parse\(text: &str\) -> Parse \{",
+         "#[cfg(kani)]\npub fn parse(_text: &str) -> Parse {\n    unimplemented!(\"compiled out under cfg(kani)\")\n}\n\n"
+         "#[cfg(not(kani))]\npub fn parse(text: &str) -> Parse {",
+         "lib.rs::parse compiled out under cfg(kani)"),
+    ],
+}
 
 KF_IDS = [
     "C14_DIGIT_LEADING_IDENT", "C14_ESCAPED_BACKSLASH_BEFORE_QUOTE",
     "C14_NESTED_BLOCK_COMMENT", "C14_SIGN_AT_EOF",
     "C15_EOF_IN_DISABLED_REGION", "C15_UNTERMINATED_ENABLED_CONDITIONAL",
     "C20_BANG_OFFERED_NOT_LEXED", "C20_BANG_LEXED_NOT_OFFERED",
+    "C04_DAG_OPERATOR_RESTRICTED", "C04_COND_WITHOUT_CLAUSE", "C04_SLICE_ELEMENT_SECOND_VALUE",
 ]
 
 
@@ -96,6 +112,14 @@ HARNESSES += [
 HARNESSES += [
     H("c20_bang_vocabulary", ["C20"], weight=120, needs_completion=True, timeout=1800),
     H("c20_keyword_vocabulary", ["C20"], weight=60, needs_completion=True),
+]
+import gen_rules as _gr  # noqa: E402
+HARNESSES += [
+    H("c04c02_unit_" + u[0], ["C04", "C02"], weight=30, timeout=1200, replay="l2", unit=u[0])
+    for u in _gr.UNITS
+] + [
+    H("c04_gen_" + u[0], ["C04"], weight=30, timeout=1200, replay="l2", unit=u[0])
+    for u in _gr.UNITS
 ]
 L1 = ["c01c02_l1_eat", "c01c02_l1_skip", "c01c02_l1_eat_if", "c01c02c17_l1_expect_with_msg",
       "c01c02_l1_assert", "c01c02c17_l1_error_and_eat", "c01c02c17_l1_error_and_recover",
